@@ -167,6 +167,8 @@ func runReplays(t *testing.T, prop string, fn func(variant string, raw json.RawM
 					f.Add("PANIC", "replay", "%v\n%s", rc, debug.Stack())
 				}
 			}()
+			vstat.InFlight(prop, rf.Variant, rf.Case) // (a replay that kills the process is reported with this file)
+			defer vstat.ClearInFlight(prop)
 			f = fn(rf.Variant, rf.Case)
 		}()
 		known, unknown := vstat.Split(prop, f)
